@@ -349,12 +349,8 @@ func c30(p *an.Prog, r *an.R, tier string) {
 						return false
 					}
 					stale := g.Reach(l, true, &an.Search{ExitIsTarget: true, Cut: reorders, CutEdge: func(b *cfg.Block, k int) bool {
-						cond := an.CondOf(b)
-						if cond == nil {
-							return false
-						}
 						// cut the edge on which the item is known off the heap
-						return an.Implied(cond, k == 0, func(atom ast.Expr, truth bool) bool {
+						return g.EdgeImplies(b, k, func(atom ast.Expr, truth bool) bool {
 							isT, onTrue := idxCond(atom, item)
 							return isT && onTrue != truth
 						})
